@@ -183,11 +183,16 @@ def run(ctx):
     known = {k["key"] for k in vlib.load_known().get("findings", []) if k["property"] == "C09"}
     new = [k for k in by_key if k not in known and not k.startswith("NoRace")]
     if new:
-        # race reports are proofs by themselves; anything else has to show again in fresh processes
+        # race reports are proofs by themselves; anything else has to show again in fresh processes. With a real race in
+        # the code which operation comes out differently changes from run to run: what does not show again is dropped
+        # (stderr), and only if nothing at all is left is the run inconclusive
         again, _ = explore(ctx, "confirm", race_bin)
-        for k in new:
-            if k not in again:
-                raise vlib.Infra(f"violation {k} did not reproduce on a second run in fresh processes")
+        lost = [k for k in new if k not in again]
+        for k in lost:
+            vlib.log(f"[unconfirmed] {k} did not show again in fresh processes - not reported")
+            del by_key[k]
+        if lost and not any(k not in known for k in by_key):
+            raise vlib.Infra(f"violations {lost[:3]} did not reproduce on a second run in fresh processes")
     for key, (name, line) in sorted(vlib.limit_new(by_key, "C09").items()):
         if name == "C09.NoRace":
             desc = "the Go race detector reports unsynchronised accesses while sessions run concurrently over shared assets:\n" + line["report"][:1500]
